@@ -58,6 +58,7 @@ func checkC17(c *Ctx) {
 		"B-IDX|pkcs12.decodeBMPString|index ?phi1[1] #1": "the length is checked to be even at entry and the loop consumes two bytes per iteration, so len > 0 implies len >= 2 (a parity invariant, outside the linear prover)",
 		"B-IDX|pkcs12.SM2P12Decrypt|index extract1(call:pkcs12.DecodeAll(extract0(call:io/ioutil.ReadFile(fileName)),pwd))[0] #1": "DecodeAll returns a nil error only with certificate != nil, and certificate is only ever extended by append of one parsed certificate (an inter-procedural loop invariant, outside the linear prover)",
 	}
+	checkIntContracts(c) // the bounds proofs below may use the readObject contract
 	st := bidx(c, "B-IDX", fs, exempt)
 	c.Notes = append(c.Notes, fmt.Sprintf("B-IDX: %d sites, %d compiler, %d LinBounds, %d unproven", st.sites, st.compiler, st.lin, st.unproved))
 }
